@@ -275,23 +275,39 @@ vpps: Dict[str, h.ExternalModule] = {
 }
 
 
+class CallCache(dict):
+    """# Cache of module-calls, keyed by the primitive parameters *as written*.
+    Parameter classes compare by value: `1 * µ` equals `1000 * n`. Keyed by value alone, a request
+    written one way would be answered with the call made for an equal request written the other way,
+    earlier in the process - so what a design compiles to would depend on what was compiled before it."""
+
+    def __contains__(self, params) -> bool:
+        return super().__contains__((params, repr(params)))
+
+    def __getitem__(self, params):
+        return super().__getitem__((params, repr(params)))
+
+    def __setitem__(self, params, call) -> None:
+        super().__setitem__((params, repr(params)), call)
+
+
 @dataclass
 class Cache:
     """# Module-Scope Cache(s)"""
 
-    mos_modcalls: Dict[MosParams, h.ExternalModuleCall] = field(default_factory=dict)
+    mos_modcalls: Dict[MosParams, h.ExternalModuleCall] = field(default_factory=CallCache)
 
     res_modcalls: Dict[PhysicalResistorParams, h.ExternalModuleCall] = field(
-        default_factory=dict
+        default_factory=CallCache
     )
 
     cap_modcalls: Dict[PhysicalCapacitorParams, h.ExternalModuleCall] = field(
-        default_factory=dict
+        default_factory=CallCache
     )
 
-    diode_modcalls: Dict[DiodeParams, h.ExternalModule] = field(default_factory=dict)
+    diode_modcalls: Dict[DiodeParams, h.ExternalModule] = field(default_factory=CallCache)
 
-    bjt_modcalls: Dict[BipolarParams, h.ExternalModule] = field(default_factory=dict)
+    bjt_modcalls: Dict[BipolarParams, h.ExternalModule] = field(default_factory=CallCache)
 
 
 CACHE = Cache()
